@@ -20,9 +20,9 @@ RULE = ('cases = flat machines (C01 generator, finalize_event non-empty so that 
         'trigger, the result/exception, every model\'s state and the registered models afterwards. Non-trivial: a '
         'call processed >= 2 events, or discarded pending events (raise/remove); distinct by case hash.')
 ASSUMPTIONS = ['callbacks call remove_model only for registered models (guarded in the harness) and trigger only known events',
-               'unqueued immediate processing is covered by the re-entrant engine check when present']
+               'every third case runs without a queue on the re-entrant engine (Reent.v): nested triggers are processed inside the calling callback']
 THEOREMS = ['C05_deferred', 'C05_fifo_once', 'C05_top', 'C05_raise_discards', 'C05_remove_exact', 'C05_head_stays',
-            'C05_nothing_lost', 'C05_example']
+            'C05_nothing_lost', 'C05_example', 'C05_unqueued_nested', 'C05_reentrant_refines_flat']
 
 
 def gen(rng, i, tier):
